@@ -11,7 +11,7 @@ from vlib.core import run as sh
 MODULES = ["TLVerif.Props.C34"]
 THEOREMS = ["TLVerif.Props.C34." + t for t in [
     "utf8_valid_iff_wellformed", "string_valid_and_denotes", "string_invalid_is_base64_object", "base64_roundtrip",
-    "jlexer_unescape_sound", "string_roundtrip", "base64_form_accepted_for_any_content", "string_writer_injective", "uint_is_json_number", "int_is_json_number",
+    "jlexer_unescape_sound", "string_roundtrip", "base64_form_accepted_for_any_content", "writer_loop_refines", "string_roundtrip_go", "string_writer_injective", "uint_is_json_number", "int_is_json_number",
     "uint32_roundtrip", "uint64_roundtrip", "int32_roundtrip", "int64_roundtrip", "uint_out_of_range_rejected",
     "float_special", "float_class_fields", "float_finite_roundtrip_partial", "float_writer_cases"]]
 SOURCES = ["TLVerif.Jsonp." + m for m in ["Utf8", "Base64", "Writer", "Reader", "Driver", "Utf8Lemmas", "Base64Lemmas",
